@@ -78,6 +78,15 @@ Section Frame.
       destruct (node_is_dir_get _ _ Hd) as (ch & m & Hg). exact (wget_lt _ _ _ Hg).
   Qed.
 
+  (* the root test reads the meta data of a directory only: the same in both heaps *)
+  Lemma frame_root_check (vol p0 : nat) : node_is_dir h p0 = true -> root_check h' v vol p0 = root_check h v vol p0.
+  Proof.
+    intros Hd. unfold root_check. destruct (Nat.eq_dec p0 parent) as [->|Hne].
+    - rewrite frame_get_parent, Hpar. reflexivity.
+    - rewrite frame_get_old; [reflexivity| |exact Hne].
+      destruct (node_is_dir_get _ _ Hd) as (ch & m & Hg). exact (wget_lt _ _ _ Hg).
+  Qed.
+
   Lemma frame_children_new : alookup str_eqb name (children h' parent) = Some c.
   Proof. unfold children. rewrite frame_get_parent. apply alookup_aset_same. Qed.
 
@@ -93,6 +102,7 @@ Section Frame.
     - subst r. discriminate He.
     - rewrite search_loop_S in Hr. destruct (pi_next (v_os v) pi) as [ok pi1]. cbv zeta in Hr.
       destruct (negb ok); [subst r; discriminate He|].
+      destruct (root_check h v vol p0); [subst r; discriminate He|].
       destruct (alookup str_eqb (pi_part pi1) (children h p0)) as [n|] eqn:Hl.
       2:{ subst r. cbn. split; [destruct (pi_is_last pi1); [discriminate|reflexivity]|eauto]. }
       destruct (get h n) as [[ch m|dt k i m|t m]|] eqn:Hgn; try (subst r; discriminate He).
@@ -124,6 +134,8 @@ Section Frame.
       rewrite search_loop_S in Hr. rewrite search_loop_S.
       destruct (pi_next (v_os v) pi) as [ok pi1]. cbv zeta in Hr |- *.
       destruct (negb ok); [subst r; discriminate He|].
+      rewrite (frame_root_check vol p0 Hpd).
+      destruct (root_check h v vol p0); [subst r; discriminate He|].
       destruct (alookup str_eqb (pi_part pi1) (children h p0)) as [n|] eqn:Hl.
       + assert (Hdiff : p0 <> parent \/ pi_part pi1 <> name).
         { destruct (Nat.eq_dec p0 parent) as [->|Hne]; [|left; exact Hne]. right. intros En.
@@ -202,6 +214,7 @@ Theorem nofollow_factor :
   /\ (forall s v p q, search_node s v p SlLstat = search_node s v q SlLstat -> remove s v p = remove s v q)
   /\ (forall s v p q p2 q2, search_node s v p SlLstat = search_node s v q SlLstat ->
                             search_node s v p2 SlLstat = search_node s v q2 SlLstat ->
+                            str_eqb p p2 = str_eqb q q2 ->
                             rename s v p p2 = rename s v q q2)
   /\ (forall s v p q p2 q2, search_node s v p SlLstat = search_node s v q SlLstat ->
                             search_node s v p2 SlLstat = search_node s v q2 SlLstat ->
@@ -214,7 +227,7 @@ Proof.
   - intros s v p q E B. unfold stat_gen. rewrite E, B. reflexivity.
   - intros s v p q E. unfold readlink. rewrite E. reflexivity.
   - intros s v p q E. unfold remove. rewrite E. reflexivity.
-  - intros s v p q p2 q2 E1 E2. unfold rename. rewrite E1, E2. reflexivity.
+  - intros s v p q p2 q2 E1 E2 E3. unfold rename. rewrite E1, E2, E3. reflexivity.
   - intros s v p q p2 q2 E1 E2. unfold link. rewrite E1, E2. reflexivity.
   - intros s v p q uid gid E. unfold chown_gen. rewrite E. reflexivity.
   - intros s v t p q E. unfold symlink. rewrite E. reflexivity.
@@ -234,15 +247,15 @@ Theorem nofollow_final (s : fsys) (sv : sview) (cs : list str) (par n : nat) (na
   let v := sv_view sv in
   let h := f_heap s in
   v_os v = Linux -> walk_wf h -> links_clean h ->
-  node_is_dir h (v_root v) = true -> kperm h (v_root v) 1 (v_user v) = true ->
+  node_is_dir h (v_root v) = true ->
   Forall good_comp cs ->
   klookup s sv false false (abs_path cs) = WNode par LNorm name n -> get h n = Some (NSym t m) ->
   sr_err (search_node s v (abs_path cs) SlLstat) <> EFuel ->
   let r := search_node s v (abs_path cs) SlLstat in
   sr_err r = EFileExists /\ sr_child r = Some n /\ sr_parent r = Some par /\ pi_part (sr_pi r) = name.
 Proof.
-  intros v h Hos Hwf Hlc Hrd Hrp Hg HK Hgn Hnf r.
-  pose proof (sym_bridge_lookup s sv SlLstat cs Hos Hwf Hlc Hrd Hrp Hg) as H. cbv zeta in H.
+  intros v h Hos Hwf Hlc Hrd Hg HK Hgn Hnf r.
+  pose proof (sym_bridge_lookup s sv SlLstat cs Hos Hwf Hlc Hrd Hg) as H. cbv zeta in H.
   change (follow_of SlLstat) with false in H. rewrite HK in H.
   specialize (H ltac:(discriminate) ltac:(discriminate) Hnf). cbn [walk_rel] in H.
   destruct H as (H1 & H2 & _ & _ & H4). destruct (H4 eq_refl) as (H5 & H6).
